@@ -6,7 +6,7 @@ claimed = {
  "C18": dict(engine="venum",
    technique="exhaustive small-scope enumeration of authorizer answers x operations x digest sets x any-trees against the real decorator (bounded explicit enumeration, reference oracle)",
    text="Every assignment of allow/PERMISSION_DENIED/INTERNAL to 3 instance names for the authorizer in charge (other authorizers set to each constant answer), every single-digest Get/GetFromComposite/Put and every FindMissing subset over 6 digests, and every `any` tree of depth<=2 with <=3 (quick) / <=4 (thorough) leaves with every leaf answer assignment and every ordered name list, executed on the real NewAuthorizingBlobAccess / NewAnyAuthorizer and compared with a reference verdict; backend call log and upload-buffer release counter are part of the oracle. Complete enumeration of the stated finite space (exhaustive:true).",
-   note="Bounded to 3 instance names, 2 hashes, any-trees of depth 2; scripted authorizers stand in for real ones (static/JMESPath/remote authorizers themselves are not exercised beyond NewStaticAuthorizer for the empty any).",
+   note="For 'any': a member that was consulted for a name and failed (non-denial) must not be overruled by another member's grant; which members are consulted, and in which order, is not judged. Bounded to 3 instance names, 2 hashes, any-trees of depth 2; scripted authorizers stand in for real ones (static/JMESPath/remote authorizers themselves are not exercised beyond NewStaticAuthorizer for the empty any).",
    ref="DESIGN.md section 3 C18"),
 }
 na_reason = "check not built yet in this round; planned per DESIGN.md section 3"
